@@ -31,6 +31,7 @@ RULE = (
     "Oracles: entry / before=after / verdict / top-level / generator (see module docstring). "
     "distinct_nontrivial = distinct (wrapper flavour, exit kind, depth) cells x outcome reached."
 )
+REACH = ['cell:ctx|return', 'cell:ctx|exc:KeyboardInterrupt', 'cell:new:tg:fn|return', 'cell:old:', 'cell:none:', 'cell:new:bt:dc', 'fault_fired:tc.call', 'fault_fired:duck.shape', 'fault_fired:body']  # counters (prefixes) that a healthy batch makes non-zero; gaps are reported in the evidence
 BUDGET = {"quick": 40, "thorough": 600}
 ASSUMPTIONS = [
     "faults originate in code jaxtyping calls (body, typechecker, array attributes), not between two bytecodes of its own wrapper",
